@@ -329,16 +329,16 @@ func (c *oCache) TryRemove(id string) (ok bool, err error) {
 	closed, err := e.value.TryClose(c.ttl)
 	if err != nil {
 		c.log.With("object_id", e.id).Warnf("try remove err: %v", err)
-		return closed, err
 	}
-
+	// the entry was moved to closing above: whatever TryClose reports, it has to
+	// leave that state again (as in GC), or every later Get/Remove/Close waits on it
 	if !closed {
 		e.setActive(true)
-		return false, nil
+		return false, err
 	}
 
 	c.closeAndDelete(e)
-	return true, nil
+	return true, err
 }
 
 func (c *oCache) DoLockedIfNotExists(id string, action func() error) error {
